@@ -40,6 +40,8 @@ FLAVORS = {
                     "-fno-sanitize-recover=undefined", "-fno-omit-frame-pointer"],
     "plain": ["-O1"],
     "o0": ["-O0"],
+    # development aid (tools/coverage.sh): which lines of ampl/mp do the generated cases reach
+    "cov": ["-O0", "-g", "--coverage", "-fprofile-update=atomic"],
 }
 
 LIBMP_SRCS = [
@@ -122,7 +124,7 @@ def build(target, srcs, flavor="asan", libs=(), extra_flags=(), harness_srcs=())
     want = h.hexdigest()
     have = open(stamp).read() if os.path.exists(stamp) and os.path.exists(exe) else ""
     if want != have:
-        link_flags = [f for f in flags if f.startswith("-fsanitize") or f.startswith("-fno-sanitize")]
+        link_flags = [f for f in flags if f.startswith("-fsanitize") or f.startswith("-fno-sanitize") or f == "--coverage"]
         tmpexe = "%s.%d.tmp" % (exe, os.getpid())
         cmd = ["g++"] + link_flags + objs + ["-o", tmpexe] + list(libs) + ["-ldl", "-lpthread"]
         p = sh(cmd, capture_output=True, text=True)
